@@ -2115,6 +2115,16 @@ impl EGraph {
             typechecked = remove_globals::remove_globals(typechecked, &mut self.parser.symbol_gen);
             for command in &typechecked {
                 self.names.check_shadowing(command)?;
+                // Groundedness is otherwise only checked when a rule is installed, one
+                // rule at a time. A command made of several rules (`birewrite`) has to
+                // be rejected as a whole, not after its first rule has been installed.
+                if let ResolvedNCommand::NormRule { rule } = command {
+                    rule.to_canonicalized_core_rule(
+                        &self.type_info,
+                        &mut self.parser.symbol_gen,
+                        true,
+                    )?;
+                }
             }
             Ok(typechecked)
         }
@@ -2140,6 +2150,17 @@ impl EGraph {
             );
             for command in &typechecked_no_globals {
                 self.names.check_shadowing(command)?;
+                // As in `resolve_command_before_proofs`: reject a command made of
+                // several rules before any of them is installed.
+                if let (ResolvedNCommand::NormRule { rule }, Some(original)) =
+                    (command, &self.proof_state.original_typechecking)
+                {
+                    rule.to_canonicalized_core_rule(
+                        &original.type_info,
+                        &mut self.parser.symbol_gen,
+                        false,
+                    )?;
+                }
             }
 
             let term_encoding_added =
